@@ -162,8 +162,34 @@ func c14AllocBudget(n int) uint64 {
 
 // ---- type map configurations -------------------------------------------------------------------
 
+// c14ExtraTypes: container-of-container types a caller may register by hand (the zoo's own maps do not hold
+// them: they are outside the round-trip domain, but a decoder must survive hostile input for them too).
+var c14ExtraTypes = map[string]reflect.Type{
+	"[[int32":  reflect.TypeOf([][]int32(nil)),
+	"[[string": reflect.TypeOf([][]string(nil)),
+	"[[K00":    reflect.TypeOf([][]*K00(nil)),
+	"[map":     reflect.TypeOf([]map[string]int32(nil)),
+	"mapOfL":   reflect.TypeOf(map[string][]int32(nil)),
+}
+
+func c14ExtraNames() []string {
+	names := make([]string, 0, len(c14ExtraTypes))
+	for k := range c14ExtraTypes {
+		names = append(names, k)
+	}
+	sort.Strings(names)
+	return names
+}
+
 func c14TypeMap(ch *Choices) (map[string]reflect.Type, string) {
-	return typeMapVariant(ch, ch.Pick([]int{50, 15, 20, 15}, "tm.kind"))
+	tm, name := typeMapVariant(ch, ch.Pick([]int{50, 15, 20, 15}, "tm.kind"))
+	if ch.Intn(2, "tm.extra") == 1 {
+		for _, k := range c14ExtraNames() {
+			tm[k] = c14ExtraTypes[k]
+		}
+		name += " + nested container types"
+	}
+	return tm, name
 }
 
 // typeMapVariant: 0 complete, 1 empty, 2 partial, 3 shuffled (names bound to other / odd types).
